@@ -50,6 +50,52 @@ def _value_inplace_writers(ctx: Ctx) -> List[str]:
     return sorted(set(out))
 
 
+def _only_under_misc(fn: FuncInfo, node: ast.AST) -> bool:
+    """node is reachable only when `self._update_type_code == Result.MISCTYPE` (conjunctions allowed, disjunctions not)."""
+    for n in walk_no_nested(fn.node):
+        if isinstance(n, ast.If) and any(node is x for s in n.body for x in ast.walk(s)):
+            conj = n.test.values if isinstance(n.test, ast.BoolOp) and isinstance(n.test.op, ast.And) else [n.test]
+            for c in conj:
+                if isinstance(c, ast.Compare) and len(c.ops) == 1 and isinstance(c.ops[0], ast.Eq):
+                    sides = {norm(c.left), norm(c.comparators[0])}
+                    if sides == {'self._update_type_code', 'Result.MISCTYPE'}:
+                        return True
+    return False
+
+
+def _check_merged_once(ctx: Ctx) -> None:
+    M = ctx.model
+    ctx.rule('C06.e', 'merge_all_results merges every named result exactly once (the specially named num_skipped_reps included)', floor=1)
+    fn = M.func(RES, 'SimulationResults.merge_all_results')
+    q = 'SimulationResults.merge_all_results'
+    ctx.instance('C06.e', q)
+    SPECIAL = 'num_skipped_reps'
+    dedicated = [c for c in ast.walk(fn.node) if isinstance(c, ast.Call) and isinstance(c.func, ast.Attribute) and c.func.attr == 'merge'
+                 and any(isinstance(x, ast.Constant) and x.value == SPECIAL for x in ast.walk(c.func.value))]
+    loops = [l for l in walk_no_nested(fn.node) if isinstance(l, ast.For)]
+    generic = []
+    for l in loops:
+        v = l.target.id if isinstance(l.target, ast.Name) else None
+        for c in ast.walk(l):
+            if isinstance(c, ast.Call) and isinstance(c.func, ast.Attribute) and c.func.attr == 'merge' and c not in dedicated \
+                    and v and any(isinstance(x, ast.Name) and x.id == v for x in ast.walk(c.func.value)):
+                # is the call guarded by a test that excludes the special name?
+                excl = False
+                for i in ast.walk(l):
+                    if isinstance(i, ast.If) and any(c is x for s in i.body for x in ast.walk(s)):
+                        t = norm(i.test).replace(' ', '').replace('"', "'")
+                        if t in ("%s!='%s'" % (v, SPECIAL), "'%s'!=%s" % (SPECIAL, v), "not%s=='%s'" % (v, SPECIAL)):
+                            excl = True
+                generic.append((c, excl))
+    ok = len(generic) == 1 and ((len(dedicated) == 1 and generic[0][1]) or (len(dedicated) == 0 and not generic[0][1]))
+    ctx.obligation('C06.e', q, ok, {'generic_merge_sites': len(generic), 'generic_excludes_special': [g[1] for g in generic],
+                                    'dedicated_merges_of_num_skipped_reps': len(dedicated)})
+    if not ok:
+        ctx.violation('C06.e', q, 'a result can be merged twice or not at all: %d generic merge site(s) %s the name %r while %d dedicated '
+                      'merge(s) of it exist' % (len(generic), 'excluding' if generic and generic[0][1] else 'NOT excluding', SPECIAL,
+                                               len(dedicated)), fn.path, fn.lineno, operand='once')
+
+
 def check(ctx: Ctx) -> None:
     M = ctx.model
     ctx.assume('foreign (non-pyphysim) callees do not mutate their arguments; copy/deepcopy/list/np.array/... return '
@@ -80,7 +126,7 @@ def check(ctx: Ctx) -> None:
                     continue
                 stmt = norm(e.node)
                 if (e.fn.qualname, stmt) in CAPTURE_EXEMPT:
-                    if premise_ok:
+                    if premise_ok and _only_under_misc(e.fn, e.node):
                         ctx.note('exempt capture %s in %s: %s (in-place writers of _value: %s)'
                                  % (stmt, e.fn.qualname, CAPTURE_EXEMPT[(e.fn.qualname, stmt)], inplace))
                         continue
@@ -93,6 +139,7 @@ def check(ctx: Ctx) -> None:
                               operand=operand + ':' + e.fn.qualname)
     _check_stat_sets(ctx)
     _check_numpy_names(ctx)
+    _check_merged_once(ctx)
 
 
 def _stored_attrs(nodes, sn: str) -> Set[str]:
@@ -220,6 +267,11 @@ MUTANTS = [
            r'C06\.d:Result\.get_result_mean:np\.float'),
     Mutant('revert-fix-np.int', RES, 'Result.update',
            [('replace', 'np.integer', 'np.int')], r'C06\.d:.*np\.int'),
+    Mutant('misc-branch-also-for-fresh-receiver', RES, 'Result.merge',
+           [('replace', 'if self._update_type_code == Result.MISCTYPE:', 'if self._update_type_code == Result.MISCTYPE or self.num_updates == 0:')],
+           r'C06\.b:Result\.merge'),
+    Mutant('skipped-reps-merged-twice', RES, 'SimulationResults.merge_all_results',
+           [('replace', "if item != 'num_skipped_reps':", 'if item in other._results:')], r'C06\.e:SimulationResults\.merge_all_results'),
     Mutant('benign-extend-copy', RES, 'Result.merge',
            [('replace', 'self._value_list.extend(other._value_list)', 'self._value_list.extend(list(other._value_list))')],
            None, benign=True),
@@ -234,3 +286,11 @@ MUTANTS = [
 ENGINES = ['model', 'codec', 'tables']
 TECHNIQUE = ('static analysis: interprocedural parameter effect/alias-capture analysis, statistic-set agreement '
              'between update and merge, live-numpy-name rule')
+
+
+def sweep(overlay):
+    from ..selftest import simple_statement, sweep_lines
+    out = []
+    for q in ('Result.merge', 'SimulationResults.merge_all_results'):
+        out += sweep_lines(overlay, RES, q, simple_statement, 'C06')
+    return out
